@@ -906,6 +906,48 @@ Lemma clock_lines_resolve_alike_lemma :
   src_clock_in_root = RootTopAccount /\ src_clock_out_root = RootTopAccount.
 Proof. split; reflexivity. Qed.
 
+(* ------------------------------------------------------------------ the postings an account holds *)
+From LedgerV Require Import Gen.TimelogPosts.
+
+(* the two source shapes were recognised: create_timelog_xact puts the posting on its account's list
+   at most once itself, xact_base_t::finalize exactly once (anything else is 99: fails here) *)
+Lemma account_adds_recognised_lemma :
+  (src_timelog_account_adds = 0 \/ src_timelog_account_adds = 1) /\ src_finalize_account_adds = 1.
+Proof. split; [first [left; reflexivity | right; reflexivity] | reflexivity]. Qed.
+
+Lemma posts_for_nonneg a ps : 0 <= posts_for a ps.
+Proof. induction ps as [|p r IH]; cbn [posts_for]; [lia|]. destruct (acct_eqb a (p_acct p)); lia. Qed.
+
+Lemma held_posts_rows a ps : held_posts a ps = held_of_rows (posts_for a ps).
+Proof. reflexivity. Qed.
+
+(* an account holds as many postings as it was given exactly when the source adds each once *)
+Lemma held_posts_once_iff a ps :
+  0 < posts_for a ps -> (held_posts a ps = posts_for a ps <-> account_adds = 1).
+Proof.
+  intros Hpos. unfold held_posts. split; intros H; [nia | rewrite H; lia].
+Qed.
+
+(* decided for the source as it is now: either every account holds exactly the postings it was given,
+   or a one-session file shows an account that holds another number.  The proof follows whichever the
+   regenerated table says. *)
+Definition one_session_file : list event :=
+  [CheckIn (mkTx 0 false (Some [65]) []); CheckOut (mkTx 3600 false (Some [65]) [])].
+
+Lemma held_posts_decided_lemma :
+  if account_adds =? 1
+  then forall a ps, held_posts a ps = posts_for a ps
+  else exists ps, journal false 86400 one_session_file = Report ps /\
+                  posts_for (Some [65]) ps = 1 /\ held_posts (Some [65]) ps <> 1.
+Proof.
+  destruct (account_adds =? 1) eqn:E.
+  - apply Z.eqb_eq in E. intros a ps. unfold held_posts. rewrite E. lia.
+  - apply Z.eqb_neq in E. eexists. split; [vm_compute; reflexivity|]. split; [vm_compute; reflexivity|].
+    unfold held_posts. intros H. apply E.
+    replace (posts_for _ _) with 1 in H by (vm_compute; reflexivity).
+    lia.
+Qed.
+
 (* ------------------------------------------------------------------ reported time: unreduce *)
 From LedgerV Require Import Gen.UnreduceWalk.
 Local Open Scope Q_scope.
